@@ -119,6 +119,8 @@ type Exec struct {
 	ifaceRecv string
 	deferred []*deferred
 	preArgs  []Term
+	seenStack []Term
+	seenFinal Term
 	closures map[*types.Var]*closure
 	inlineStack []string
 	preludeSyms   map[string]bool
@@ -297,6 +299,19 @@ func (ex *Exec) global(st *State, v *types.Var) Term {
 		return t
 	}
 	t := ex.U.DeclareConst("G_"+v.Pkg().Name()+"_"+v.Name()+"@pre", ex.U.SortOf(v.Type()))
+	if t.Sort.Kind == KRef {
+		// a reference held by a package-level variable at entry is an allocated one
+		f := "(and (>= " + t.S + " 0) (<= " + t.S + " alloc@pre))"
+		dup := false
+		for _, x := range ex.facts {
+			if x == f {
+				dup = true
+			}
+		}
+		if !dup {
+			ex.facts = append(ex.facts, f)
+		}
+	}
 	st.globals[v] = t
 	if ex.entry != nil {
 		if _, ok := ex.entry.globals[v]; !ok {
@@ -628,7 +643,13 @@ func (ex *Exec) expr1(e ast.Expr) Term {
 
 func (ex *Exec) addrOf(x *ast.UnaryExpr) Term {
 	ps := ex.U.SortOf(ex.info.TypeOf(x))
-	switch t := x.X.(type) {
+	target := x.X
+	if se, ok := target.(*ast.SelectorExpr); ok {
+		if _, isSel := ex.info.Selections[se]; !isSel {
+			target = se.Sel // qualified identifier pkg.Var
+		}
+	}
+	switch t := target.(type) {
 	case *ast.Ident:
 		if v, ok := ex.info.Uses[t].(*types.Var); ok {
 			if ex.boxed[v] {
@@ -640,7 +661,12 @@ func (ex *Exec) addrOf(x *ast.UnaryExpr) Term {
 				return ex.st.vars[v]
 			}
 			if isPkgLevel(v) {
-				return ex.U.DeclareConst("addr_"+v.Pkg().Name()+"_"+v.Name(), ps)
+				// the address of a package-level variable: a fixed, allocated cell that holds the variable's value
+				a := ex.U.DeclareConst("addr_"+v.Pkg().Name()+"_"+v.Name(), ps)
+				ex.fact(And(Term{"(> " + a.S + " 0)", SBool}, Term{"(<= " + a.S + " alloc@pre)", SBool}))
+				ex.fact(Eq(ex.loadPtr(ps, a), ex.global(ex.st, v)))
+				ex.note("address of package-level variable " + v.Name() + ": the cell is assumed to hold the variable's current value")
+				return a
 			}
 		}
 	case *ast.CompositeLit:
